@@ -393,6 +393,46 @@ def write_replay(prop_id, payload):
     return path
 
 
+EVIDENCE_MAX_BYTES = 400_000
+
+
+def _clip(o, max_str, max_items):
+    """Copy of a JSON-like value with long strings and long lists/dicts cut (the cut is stated in place)."""
+    if isinstance(o, str):
+        return o if len(o) <= max_str else o[:max_str] + '...(+%d chars, see the replay file)' % (len(o) - max_str)
+    if isinstance(o, (list, tuple)):
+        out = [_clip(x, max_str, max_items) for x in o[:max_items]]
+        if len(o) > max_items:
+            out.append('...(+%d items)' % (len(o) - max_items))
+        return out
+    if isinstance(o, dict):
+        ks = list(o)
+        out = {k: _clip(o[k], max_str, max_items) for k in ks[:max_items]}
+        if len(ks) > max_items:
+            out['...'] = '(+%d keys)' % (len(ks) - max_items)
+        return out
+    return o
+
+
+def bounded_evidence(ev):
+    """The evidence record is a summary: a mismatch on a large input (a 3 MB request once) belongs in the replay
+    file.  The free-form parts of coverage are clipped, ever harder, until the whole record is small; counts, theorem
+    lists and the histogram are never touched."""
+    size = lambda e: len(json.dumps(e, indent=1, default=str))
+    if size(ev) <= EVIDENCE_MAX_BYTES:
+        return ev
+    cov = dict(ev['coverage'])
+    free = [k for k in ('broken', 'samples', 'notes', 'counterexample_witnesses') if k in cov]
+    for max_str, max_items in ((4000, 40), (1000, 20), (300, 10), (120, 6), (60, 3)):
+        for k in free:
+            cov[k] = _clip(ev['coverage'][k], max_str, max_items)
+        cov['clipped'] = 'free-form entries cut to %d chars / %d items to keep this record small' % (max_str, max_items)
+        out = dict(ev, coverage=cov)
+        if size(out) <= EVIDENCE_MAX_BYTES:
+            return out
+    return out
+
+
 def write_evidence(prop_id, tier, seed, coverage, wall_s, violations, assumptions):
     os.makedirs(os.path.join(VERIF, 'evidence'), exist_ok=True)
     ev = {
@@ -407,6 +447,7 @@ def write_evidence(prop_id, tier, seed, coverage, wall_s, violations, assumption
     }
     path = os.path.join(VERIF, 'evidence', prop_id + '.json')
     tmp = path + '.tmp%d' % os.getpid()
+    ev = bounded_evidence(ev)
     with open(tmp, 'w') as f:
         json.dump(ev, f, indent=1, default=str)
     os.replace(tmp, path)
